@@ -36,10 +36,11 @@ const (
 	stExited
 	stPanicked
 	stKilled
-	stLost // released after cancellation and never parked again (blocked in a heartbeat/monitor send)
+	stSpawned // parked right after spawning a child (a scheduling point inside a transition: never stalled)
+	stLost    // released after cancellation and never parked again (blocked in a heartbeat/monitor send)
 )
 
-var stateName = map[tstate]string{stRunning: "running", stStep: "step", stOp: "op", stAfter: "after", stExited: "exited", stPanicked: "panicked", stKilled: "killed", stLost: "lost"}
+var stateName = map[tstate]string{stRunning: "running", stStep: "step", stOp: "op", stAfter: "after", stExited: "exited", stPanicked: "panicked", stKilled: "killed", stLost: "lost", stSpawned: "spawned"}
 
 var kindName = map[process.SimOpKind]string{
 	process.SimSend: "send", process.SimRecv: "recv", process.SimRecvRaw: "recvraw",
@@ -181,6 +182,11 @@ func (s *sched) Spawn(p *process.Process, re *process.RuntimeEnvironment, run fu
 		}()
 		run()
 	}()
+	// the spawning process is itself rescheduled here: its new child (or anybody else) may run
+	// before the rest of the parent's transition, as it may in a real execution
+	if par.proc != nil {
+		s.park(par.proc, stSpawned, nil)
+	}
 }
 
 func (s *sched) park(p *process.Process, st tstate, f func(t *task)) {
@@ -312,7 +318,7 @@ func (s *sched) enabled(cancelled bool) []trans {
 	var out []trans
 	for _, t := range s.order {
 		switch t.state {
-		case stStep, stAfter:
+		case stStep, stAfter, stSpawned:
 			out = append(out, trans{a: t, desc: "go " + t.id})
 		case stOp:
 			switch t.kind {
@@ -630,7 +636,7 @@ func (s *sched) run() {
 	s.mu.Lock()
 	var parked []*task
 	for _, t := range s.order {
-		if t.state == stStep || t.state == stOp || t.state == stAfter {
+		if t.state == stStep || t.state == stOp || t.state == stAfter || t.state == stSpawned {
 			parked = append(parked, t)
 		}
 	}
